@@ -117,7 +117,10 @@ def run(chk, replay=None):
         exp = xr.evaluate(case['stat'], rates)
         if isinstance(res, Raised):
             return {'why': 'raised', 'err': repr(res)}
-        if not xr.close(res.observed_statistic, exp):
+        # a single-precision rate array is summed and log-transformed in single precision
+        # (numpy also computes the logarithm of a 16-bit integer array in single precision)
+        tol = {'rtol': 2e-6, 'atol': 2e-6} if dtype in ('float32', 'uint16') else {}
+        if not xr.close(res.observed_statistic, exp, **tol):
             return {'why': 'observed_statistic', 'got': float(res.observed_statistic), 'expected': str(exp)}
         return None
 
@@ -152,7 +155,7 @@ def run(chk, replay=None):
                 chk.violation('gen:%s:%s:%s' % (case['kind'], bad['why'], shape),
                               {'case': case, 'table': {str(k): v for k, v in table.items()}, 'mismatch': bad})
         if ci % 4 == chk.seed % 4:
-            dt = ['float32', 'int64', 'int32', 'float16'][(ci // 4) % 4]
+            dt = ['float32', 'int64', 'int32', 'uint16'][(ci // 4) % 4]
             bad = check_case(case, INT_TABLE, dt)
             if bad:
                 nbad += 1
@@ -184,7 +187,15 @@ def run(chk, replay=None):
                     data[c, b] = 10 ** rng.uniform(-8, 1.5)
         if data.sum() == 0:
             data[0, 0] = 1.0
-        if kind == 'L' and (t // 4) % 2 == 1:
+        # every fifth forecast is held in single precision, with a few dominant bins in front of many small ones (a
+        # total accumulated naively in float32 loses the small rates); the rates are then exactly the float32 values
+        f32 = (t % 5 == 4)
+        if f32:
+            nc, nb = 150, 8
+            data = numpy.array([[10 ** rng.uniform(-6, -3) for _ in range(nb)] for _ in range(nc)])
+            data[0, 0] = 10 ** rng.uniform(2.5, 3)
+            data = numpy.array(numpy.asarray(data, dtype=numpy.float32), dtype=float)
+        if kind == 'L' and (t // 4) % 2 == 1 and not f32:
             # a forecast expecting about one event: the L-test then also simulates empty catalogs (statistic -N_fore)
             data = data * (rng.choice([0.7, 1.3]) / data.sum())
         ids = {}
@@ -202,7 +213,7 @@ def run(chk, replay=None):
         for _ in range(n_obs):
             c, b = rng.choice(zer) if (zer and rng.random() < 0.02) else rng.choice(pos[: max(1, len(pos) // 3)] if rng.random() < 0.6 else pos)
             w[c][b] += 1
-        fc = B.forecast(data, layout=['C', 'F', 'T'][(t // 4) % 3])
+        fc = B.forecast(data, layout=['C', 'F', 'T'][(t // 4) % 3], dtype=('float32' if f32 else None))
         cat = B.catalog(w, nc, nb, rng)
         nsim = 3 if kind != 'L' else 12
         sims = []
@@ -220,7 +231,7 @@ def run(chk, replay=None):
             for s in range(nsim):
                 m = [[0] * nb for _ in range(nc)]
                 for e in range(n_obs):
-                    u, k = cdf.safe_draw(rng)
+                    u, k = cdf.safe_draw(rng, margin=Fraction(1, 10 ** 4) if f32 else Fraction(1, 10 ** 9))
                     rn[s, e] = u
                     if kind == 'CL':
                         m[k // nb][k % nb] += 1
@@ -261,7 +272,7 @@ def run(chk, replay=None):
                                'rates_changed': numpy.array(fc.data, dtype=float).tobytes() != before})
         traces.append({'kind': kind, 'rid': rid, 'w': w, 'sims': sims})
         results.append(res)
-        metas.append({'kind': kind, 'shape': [nc, nb], 'n_obs': n_obs, 'rates': rates, 'data': data})
+        metas.append({'kind': kind, 'shape': [nc, nb], 'n_obs': n_obs, 'rates': rates, 'data': data, 'f32': f32})
         chk.nontrivial('tr|%s|%d|%d|%d|%d' % (kind, nc, nb, n_obs, t))
     # TLC computes the expected XR for each trace
     import json
@@ -284,13 +295,16 @@ def run(chk, replay=None):
             continue
         exp_obs = xr.evaluate(e['obs'], m['rates'])
         good = True
-        if not xr.close(res.observed_statistic, exp_obs):
+        # a single-precision forecast is summed and log-transformed in single precision by numpy: pairwise summation keeps
+        # the total within a few float32 ulps (sequential accumulation would not)
+        tol = {} if not m['f32'] else {'rtol': 3e-6, 'atol': 1e-6 * float(m['data'].sum()) + 2e-6 * m['n_obs']}
+        if not xr.close(res.observed_statistic, exp_obs, **tol):
             good = False
             chk.violation('trace:%s:observed_statistic:%s' % (tr['kind'], 'neginf' if e['obs']['op'] == 'neginf' else 'finite'),
                           {'shape': m['shape'], 'n_obs': m['n_obs'], 'got': float(res.observed_statistic), 'expected': str(exp_obs)})
         for s, ex in enumerate(e['sims']):
             ev = xr.evaluate(ex, m['rates'])
-            if not xr.close(res.test_distribution[s], ev):
+            if not xr.close(res.test_distribution[s], ev, **tol):
                 good = False
                 chk.violation('trace:%s:test_distribution' % tr['kind'],
                               {'shape': m['shape'], 'n_obs': m['n_obs'], 'sim': s, 'got': float(res.test_distribution[s]), 'expected': str(ev)})
